@@ -34,3 +34,36 @@ package webdav
 //@   ensures T3: httpCode(err) == 400 <==> (ifMatch != "" && tagMalformed(string(ifMatch), curTag(fi)))
 //@   |   || (ifMatchOK(string(ifMatch), curTag(fi)) && ifNoneMatch != "" && tagMalformed(string(ifNoneMatch), curTag(fi)))
 //@   ensures T4: err != nil ==> (httpCode(err) == 412 || httpCode(err) == 400) && !hostPath(err)
+
+//@ -- ---------------------------------------------------------------------------------------
+//@ -- C03 / C17 / C02 / C01 / C04: the local file system backend over the abstract resource tree of
+//@ -- /verif/specs/os.spec (ghost fs, fc, fsroot). lnode(name) is the node a request path denotes.
+//@ spec served(fs LocalFileSystem) bool = fsroot == string(fs) && wfTree()
+//@ spec validName(name string) bool = !contains(name, "\x00") && hasPrefix(pclean(name), "/")
+//@ spec lnode(name string) $P = node(fjoin(fsroot, pclean(name)))
+//@ func webdav.(LocalFileSystem).localPath(fs, name) (p, err)
+//@   requires R1: fsroot == string(fs) && !strHostPath(name)
+//@   ensures L1: err == nil <==> validName(name)
+//@   ensures L2: err == nil ==> p == fjoin(fsroot, pclean(name)) && confined(p)
+//@   ensures L3: err != nil ==> p == "" && httpCode(err) == 400 && !hostPath(err)
+//@ func webdav.(LocalFileSystem).externalPath(fs, name) (p, err)
+//@   requires R1: fsroot == string(fs)
+//@   ensures X1: forall c string :: canonRooted(c) && name == fjoin(fsroot, c) ==> err == nil && p == (c == "/" ? "/." : c)
+//@   ensures X2: err != nil ==> httpCode(err) == -1 && !hostPath(err)
+//@ func webdav.fileInfoFromOS(p, fi) (r)
+//@   requires R1: fi != nil
+//@   ensures F1: r != nil && fresh(r) && r.Path == p && r.IsDir == fiIsDir(fi) && r.Size == fiSize(fi) && r.ModTime == fiModTime(fi)
+//@   ensures F2: r.ETag == hexOf(ns(fiModTime(fi))) + hexOf(fiSize(fi)) && r.ETag != ""
+//@ -- errors.Is sees through a *PathError to the error it wraps (no wrapper in front of it matches a sentinel itself)
+//@ spec chainOK(e error) bool = asPathErr(e) != nil ==> (isNotExist(e) <==> isNotExist(asPathErr(e).Err)) && (isPerm(e) <==> isPerm(asPathErr(e).Err))
+//@   | && (isDeadline(e) <==> isDeadline(asPathErr(e).Err)) && (isExist(e) <==> isExist(asPathErr(e).Err))
+//@ func webdav.errFromOS(err) (r)
+//@   requires R1: chainOK(err)
+//@   ensures E0: (err == nil) == (r == nil)
+//@   ensures E1: isNotExist(err) ==> httpCode(r) == 404
+//@   ensures E2: !isNotExist(err) && isPerm(err) ==> httpCode(r) == 403
+//@   ensures E3: !isNotExist(err) && !isPerm(err) && isDeadline(err) ==> httpCode(r) == 503
+//@   ensures E4: err != nil && !isNotExist(err) && !isPerm(err) && !isDeadline(err) ==> httpCode(r) == (asPathErr(err) != nil ? httpCode(asPathErr(err).Err) : httpCode(err))
+//@   ensures E5: (isExist(r) <==> isExist(err)) && (asPathErr(err) != nil ==> !osIsExist(r))
+//@   -- C17: the host path carried by a *PathError is stripped
+//@   ensures E6: hostPath(r) == (asPathErr(err) != nil ? (strHostPath(asPathErr(err).Op) || hostPath(asPathErr(err).Err)) : hostPath(err))
